@@ -56,4 +56,5 @@ a1887f0 C02
 c4bdc93 C12
 318b915 C20
 3a4230f C11
+80a8a29 C11
 LIST
